@@ -118,10 +118,35 @@ def lean_files_of(module_files):
     return module_files
 
 
-def stream_to_file(exe, args, path):
+TIMED_OUT = -999
+
+
+def stream_to_file(exe, args, path, timeout=None):
+    """run a stream into a file; on timeout the process is killed, the partial file is kept (complete lines only) and
+    TIMED_OUT is returned so that the caller can compare the prefix and name the line that was never answered"""
     with open(path, "wb") as f:
-        p = subprocess.run([exe] + args, stdout=f, stderr=subprocess.PIPE, env=ENV)
+        try:
+            p = subprocess.run([exe] + args, stdout=f, stderr=subprocess.PIPE, env=ENV, timeout=timeout)
+        except subprocess.TimeoutExpired:
+            f.flush()
+            _keep_complete_lines(path)
+            return TIMED_OUT, "timeout after %s s" % timeout
     return p.returncode, p.stderr.decode("utf-8", "replace")
+
+
+def _keep_complete_lines(path):
+    data = open(path, "rb").read()
+    cut = data.rfind(b"\n") + 1
+    with open(path, "wb") as f:
+        f.write(data[:cut])
+
+
+def head_lines(src, dst, n):
+    with open(src, "rb") as fi, open(dst, "wb") as fo:
+        for i, line in enumerate(fi):
+            if i >= n:
+                break
+            fo.write(line)
 
 
 def first_diff(pa, pb, limit=5):
@@ -183,9 +208,14 @@ def count_lines(p):
     return n
 
 
-def exec_ops(exe, mode, ops_path, out_path):
+def exec_ops(exe, mode, ops_path, out_path, timeout=None):
     with open(ops_path, "rb") as fi, open(out_path, "wb") as fo:
-        p = subprocess.run([exe, mode], stdin=fi, stdout=fo, stderr=subprocess.PIPE, env=ENV)
+        try:
+            p = subprocess.run([exe, mode], stdin=fi, stdout=fo, stderr=subprocess.PIPE, env=ENV, timeout=timeout)
+        except subprocess.TimeoutExpired:
+            fo.flush()
+            _keep_complete_lines(out_path)
+            return TIMED_OUT, "timeout after %s s" % timeout
     return p.returncode, p.stderr.decode("utf-8", "replace")
 
 
